@@ -118,8 +118,8 @@ func dumpGoroutines() map[int64]gInfo {
 
 func waitingStatus(st string) bool {
 	switch st {
-	case "running", "runnable", "syscall":
-		return false
+	case "running", "runnable", "syscall", "sleep":
+		return false // a sleeping goroutine (slow builder) will continue on its own: not blocked
 	}
 	return true
 }
